@@ -12,7 +12,7 @@ FUNCTIONS = ['Instance::eval', 'GetOpCode', 'TryHex', 'CScript::operator<<(int64
 ASSUMPTIONS = base.ASSUMPTIONS + ['a hex token denotes a push of exactly those bytes, a decimal token the push of that number; how eval encodes the push is not prescribed, so the minimal-push policy (MINIMALDATA) must not make a hex token fail',
                                   'OP_CODESEPARATOR via exec is decided under C15 (it leaves a pointer into the temporary script)']
 OUTSIDE = ['more than 3 tokens per exec', 'decimal tokens beyond int32', 'hex tokens longer than 4 bytes']
-BOUNDS = 'every opcode name in both spellings x 3 script versions x executed/unexecuted; decimal tokens from a boundary set plus 1-3 symbolic digits; hex tokens of 1,2,4 bytes with symbolic hex digits and concrete ones of 75,76,255,256,520,521 bytes; token sequences of length 2-3; invalid tokens'
+BOUNDS = 'every opcode name in both spellings x 3 script versions x executed/unexecuted; decimal tokens from a boundary set plus 1-3 symbolic digits; hex tokens of 1,2,4 bytes with symbolic hex digits and concrete ones of 75,76,255,256,520,521 bytes; token sequences of length 2-3; invalid tokens; stack + alt stack totals 999/1000 before growing operations (the 1000-item limit)'
 
 def setup(E): base.setup(E)
 
@@ -24,8 +24,8 @@ NAMES['OP_FALSE'] = 0; NAMES['FALSE'] = 0; NAMES['OP_TRUE'] = 0x51; NAMES['TRUE'
 
 def obligations(tier, seed):
     obs = []
-    def add(tokens, sv, lens, vf=(0, None), symhex=0, symdec=0, tag='', label=None, allow=0):
-        obs.append(dict(name='eval/%s/sv%d/st%s/vf%d-%s%s' % (label or ' '.join(tokens), sv, '.'.join(map(str, lens)), vf[0], vf[1], tag), tokens=tokens, sv=sv, lens=lens, vf=vf, symhex=symhex, symdec=symdec, allow=allow))
+    def add(tokens, sv, lens, vf=(0, None), symhex=0, symdec=0, tag='', label=None, allow=0, pad=0):
+        obs.append(dict(name='eval/%s/sv%d/st%s/vf%d-%s%s' % (label or ' '.join(tokens), sv, '.'.join(map(str, lens)), vf[0], vf[1], tag), tokens=tokens, sv=sv, lens=lens, vf=vf, symhex=symhex, symdec=symdec, allow=allow, pad=pad))
     import C17
     for sv in (R.BASE, R.WITNESS_V0):
         for n, k in C17.ARITY.items(): add([n], sv, tuple([1] * k), tag='/allow-disabled', allow=1)
@@ -56,12 +56,19 @@ def obligations(tier, seed):
         for seq, vf in ((['1', 'OP_IF', 'OP_RETURN'], (0, None)), (['OP_ENDIF', 'OP_RETURN'], (1, None)), (['OP_ELSE', '9', 'OP_TOALTSTACK', 'OP_DROP', 'OP_VERIFY'], (1, 0)), (['OP_TOALTSTACK', 'OP_NOTIF', 'OP_ELSE', 'OP_FROMALTSTACK', 'OP_FROMALTSTACK', 'OP_FROMALTSTACK'], (0, None)),
                         (['OP_IF', 'OP_ENDIF', 'OP_ENDIF'], (0, None)), (['OP_ENDIF', 'OP_ENDIF'], (2, 1))):
             add(seq, sv, (1, 1), vf=vf)
+    # the 1000-item limit (stack + alt stack, the alt stack holds one item) applies to an exec'd operation as to a script operation (seed C16-8)
+    for sv in (R.BASE, R.WITNESS_V0, R.TAPSCRIPT):
+        for seq, k in ((['OP_1'], 0), (['7'], 0), (['OP_DEPTH'], 0), (['OP_DUP'], 1), (['OP_2DUP'], 2), (['OP_SIZE'], 1), (['OP_1', 'OP_DROP'], 0), (['OP_DROP', 'OP_1', 'OP_1'], 1), (['OP_FROMALTSTACK', 'OP_DUP'], 0)):
+            for pad in (998, 999):
+                if tier == 'quick' and sv != R.BASE and seq[0] not in ('OP_1', 'OP_DUP'): continue
+                add(seq, sv, tuple([1] * k), pad=pad - k, tag='/pad%d' % (pad - k))
+        add(['OP_1'], sv, (), vf=(1, 0), pad=999, tag='/pad999')
     return obs
 
 def build(ob, V=None):
     sym = V is None
     def var(n, bits): return z3.BitVec(n, bits) if sym else V.get(n, 0)
-    stack = [[var('s%d_%d' % (i, j), 8) for j in range(L)] for i, L in enumerate(ob['lens'])]
+    stack = [[1 + (i & 1)] for i in range(ob.get('pad', 0))] + [[var('s%d_%d' % (i, j), 8) for j in range(L)] for i, L in enumerate(ob['lens'])]
     alt = [[var('a0', 8)]]
     script = [0x51, 0x61, 0x52]
     toks = []; assume = []; tchars = []
@@ -128,8 +135,8 @@ def ref_eval(ctx, ob, toks, P):
             S2 = S.copy()
             if S2.vf_ff is None:
                 S2.stack.append(R.num_encode(ctx, v) if kind == 'num' else list(v))
-                if len(S2.stack) + len(S2.alt) > R.MAX_STACK: r = dict(ok=0, err=R.ERR('STACK_SIZE'))
             r = dict(ok=1, stack=S2.stack, alt=S2.alt, vf=(S2.vf_size, S2.vf_size if S2.vf_ff is None else S2.vf_ff), nop=S2.nop)
+            if len(S2.stack) + len(S2.alt) > R.MAX_STACK: r = dict(ok=0, err=R.ERR('STACK_SIZE'))          # (was overwritten by the line above until the /pad obligations exercised it)
             if kind == 'push' and len(v) > R.MAX_ELEM: r = dict(ok=0, err=R.ERR('PUSH_SIZE'))          # element-size limit: applies to every push, executed or not, in every script version
         if not r['ok']: return dict(ret=0, err=r['err'], alt_before=S.alt, vf_before=(S.vf_size, S.vf_size if S.vf_ff is None else S.vf_ff))
         S.stack = r['stack']; S.alt = r['alt']; S.vf_size = r['vf'][0]; S.vf_ff = None if r['vf'][1] == r['vf'][0] else r['vf'][1]; S.nop = r['nop']
